@@ -828,6 +828,21 @@ def register_core(M):
                     if len(cands) == 1:
                         return ex.call_body(cands[0], a)
             s, d = (info['self_ty'] or ''), (dty or '')
+            # impls generated by a derive (`#[derive(From)]`) are bodies without an entry in the source-level impl table:
+            # found by signature - one parameter of the source type, returning the target type
+            src_h = head(s) if info['key'] == 'Into::into' else None
+            if src_h is not None and (s.strip().startswith('impl ') or re.fullmatch(r'[A-Z]\w{0,2}', s.strip() or 'x')):
+                v_ = ex.materialize(a[0])          # generic code (`impl Into<X>`, `T`): the value's own type decides
+                src_h = head(v_.ty) if isinstance(v_, Adt) and v_.ty else None
+            dst_h = head((generic_args(info['trait'] or '') or [d])[0]) if info['key'] == 'Into::into' else head(s or d)
+            if info['key'] == 'From::from':
+                v_ = ex.materialize(a[0])
+                src_h = head(v_.ty) if isinstance(v_, Adt) and v_.ty else None
+            if src_h and dst_h and src_h != dst_h and dst_h not in ('Arc', 'Box', 'Option', 'String', 'Vec'):
+                cands = [b for n_, b in ex.prog.bodies.items() if n_.endswith('>::from') and len(b.params) == 1
+                         and head(b.params[0][1]) == src_h and head(b.ret_type or '') == dst_h]
+                if len(cands) == 1:
+                    return ex.call_body(cands[0], a)
             v0 = ex.materialize(a[0])
             if info['key'] == 'Into::into' and isinstance(v0, Obj) and v0.kind == 'panic_payload' and head(d) == 'Arc':
                 return Ref(Cell(Obj('payload_value', tag=v0.tag, ty=v0.ty)), (), pid=bv(0x6000000000000000 + Cell._n * 64))
@@ -892,6 +907,20 @@ def register_core(M):
         cell, path = ex.deref(a[0])
         ex.write_path(cell, path, M.load(ex, a[1]))       # values are immutable: cloning is sharing
         return UNIT
+
+    @reg('Default::default')
+    def _(ex, info, a, dty):
+        # std containers / cells: the empty value; everything else: the crate's own impl (or havoc)
+        st = (info.get('self_ty') or '').strip()
+        if head(st) in ('RefCell', 'Cell', 'Mutex', 'HashMap', 'HashSet', 'Vec', 'Option', 'BTreeMap', 'String') or sort_of(st) is not None:
+            try:
+                return M.default_value(ex, st)
+            except Inconclusive:
+                pass
+        body = ex.prog.resolve(info)
+        if body is not None:
+            return ex.call_body(body, list(a))
+        return M.uninterpreted(ex, info, a, dty)
 
     @reg('RefCell::new', 'Cell::new')
     def _(ex, info, a, dty):
@@ -1203,6 +1232,12 @@ def _default_value(self, ex, ty):
     if h == 'HashMap':
         g = generic_args(t)
         return self.new_assoc(g[0] if g else '?', g[1] if len(g) > 1 else '?')
+    if h == 'HashSet':
+        g = generic_args(t)
+        return self.new_assoc(g[0] if g else '?', '()')
+    if h in ('RefCell', 'Cell', 'Mutex'):
+        g = generic_args(t)
+        return Adt(t, {(None, 0): self.default_value(ex, g[0])})
     te = tuple_elems(t)
     if te is not None:
         return Adt(t, {(None, i): self.default_value(ex, x) for i, x in enumerate(te)})
